@@ -1,6 +1,6 @@
 (* the arithmetic / decision kernels regenerated from rex/asynchronous.py coincide with the actor model M1 *)
 From Coq Require Import ZArith Bool Lia List.
-From Rex Require Import KahnL AsyncModel2 AsyncLaws AsyncLaws2.
+From Rex Require Import KahnL AsyncModel2 AsyncLaws AsyncLaws2 AsyncLaws6.
 From Rex.Generated Require Import Async.
 Open Scope Z_scope.
 
@@ -27,3 +27,27 @@ Proof.
 Qed.
 Lemma future_tie t k r l : has_future t (TTsIn k r :: l) = future_src t r || has_future t l.
 Proof. unfold future_src, has_future. cbn [existsb]. rewrite Z.gtb_ltb. reflexivity. Qed.
+(* one iteration of the counting loop of push_expected_blocking is one unfolding of the model's cnt_loop *)
+Lemma blk_loop_tie fuel i Pm phm t_low t_high N0 skip acc :
+  cnt_loop (S fuel) i Pm phm t_low t_high N0 skip acc =
+  if blk_continue_src (blk_t_src Pm phm i) t_high
+  then cnt_loop fuel (i + 1) Pm phm t_low t_high N0 skip (acc + blk_flag_src N0 skip (blk_t_src Pm phm i) phm t_low t_high)%nat
+  else acc.
+Proof.
+  cbn [cnt_loop]. unfold blk_continue_src, blk_t_src, blk_flag_src. set (t := i * Pm + phm).
+  rewrite Z.gtb_ltb. destruct (Z.ltb_spec t_high t); [reflexivity|]. cbn [negb]. f_equal. f_equal.
+  destruct N0, skip; cbn [negb andb orb];
+  repeat match goal with |- context [?a <? ?b] => destruct (Z.ltb_spec a b) | |- context [?a <=? ?b] => destruct (Z.leb_spec a b) end;
+  cbn; try reflexivity; lia.
+Qed.
+(* interval bounds, start index and fuel: the expression the model's blocking expectation (blk_cnt) starts the loop with *)
+Lemma blk_bounds_tie G c (N : nat) :
+  let nn := node G (c_in (conn G c)) in let nm := node G (c_out (conn G c)) in
+  let t_high := blk_t_high_src (n_period nn) (n_phase nn) (Z.of_nat N) in
+  let t_low := blk_t_low_src (n_period nn) (n_phase nn) (Z.of_nat N) in
+  let i0 := blk_i0_src (n_period nm) (n_phase nm) t_low (Z.of_nat N) in
+  blk_cnt G c N = cnt_loop (Z.to_nat ((t_high - (i0 * n_period nm + n_phase nm)) / n_period nm + 3)) i0 (n_period nm) (n_phase nm) t_low t_high
+                    (Nat.eqb N 0) (c_skip (conn G c)) 0.
+Proof.
+  cbv zeta. unfold blk_cnt, blk_t_high_src, blk_t_low_src, blk_i0_src. rewrite Z.gtb_ltb. reflexivity.
+Qed.
